@@ -46,7 +46,7 @@ def chan_path(g, c):
     return group_path(g) + "/'" + c.replace("'", "''") + "'"
 
 
-def compare(data, exp):
+def compare(data, exp, check_types=True, exact_raw=True):
     """-> None or (kind, message)"""
     r = H.guarded(lambda: H.TdmsFile.read(io.BytesIO(data), raw_timestamps=True))
     if r[0] != 'ok':
@@ -84,7 +84,13 @@ def compare(data, exp):
                 if got[0] != 'ts' and got[1]:
                     return ('dtype', '%s: raw timestamps expected, got %s' % (ch.path, got[0]))
                 if got[1] and got[2] != b''.join(vals):
-                    return ('values', '%s (%s): raw timestamps differ' % (ch.path, kind))
+                    ok = False
+                    if not exact_raw:   # copied through datetime64[us]: sub-microsecond fractions are documented to be lost
+                        a1 = np.frombuffer(got[2], dtype=[('f', '<u8'), ('s', '<i8')])
+                        a2 = np.frombuffer(b''.join(vals), dtype=[('f', '<u8'), ('s', '<i8')])
+                        ok = all(abs(ts_to_us(int(x['s']), int(x['f'])) - ts_to_us(int(y['s']), int(y['f']))) <= 1 for x, y in zip(a1, a2))
+                    if not ok:
+                        return ('values', '%s (%s): raw timestamps differ' % (ch.path, kind))
             elif t == 'TimeStamp-us':
                 if got[1]:
                     if got[0] != 'ts':
@@ -138,12 +144,14 @@ def compare(data, exp):
             g = H.norm_prop(got[name])
             if e[0] == 'us':
                 ok = g[0] == 'ts' and abs(ts_to_us(g[1], g[2]) - e[1]) <= 1
+            elif e[0] == 'ts' and not exact_raw:
+                ok = g[0] == 'ts' and abs(ts_to_us(g[1], g[2]) - ts_to_us(e[1], e[2])) <= 1
             else:
                 ok = g == e
             if not ok:
                 return ('prop-value', '%s.%s: read %r, wrote %r' % (path, name, g, e))
             ondisk = dec['props'].get(path, {}).get(name)
-            if ondisk is None or ondisk[0] != t:
+            if check_types and (ondisk is None or ondisk[0] != t):
                 return ('prop-type', '%s.%s: on-disk type %r, expected %s' % (path, name, ondisk and ondisk[0], t))
     return None
 
@@ -168,6 +176,52 @@ def check_program(calls, assign, split, version, dest):
         return 'skipped', None
     why = compare(r[1], exp)
     return ('equal', None) if why is None else ('deviates', why)
+
+
+def _copy_worker(item):
+    """documented alternative input of write_segment: TdmsGroup / TdmsChannel objects read from another file"""
+    from nptdms import TdmsWriter, RootObject
+    ai, seed = item
+    shapes = W.call_shapes()
+    assign = W.assignments()[ai]
+    res = {'counters': {'programs': 0, 'nontrivial': 0, 'multi_session': 0, 'copies': 0}, 'outcomes': {}, 'violations': [], 'samples': []}
+    for seq in ([17], [17, 7], [10, 4, 12], [2, 8, 11, 4], [20, 19]):
+        calls = [shapes[i] for i in seq]
+        try:
+            r = W.run_program(calls, assign, 0, 4713, 'stream', index=False)
+            if r[0] != 'written':
+                continue
+            exp = W.expected_content(r[3])
+        except W.Skip:
+            continue
+        for raw_ts in (False, True):
+            res['counters']['programs'] += 1
+            res['counters']['copies'] += 1
+
+            def copy():
+                tf = H.TdmsFile.read(io.BytesIO(r[1]), raw_timestamps=raw_ts)
+                out = io.BytesIO()
+                with TdmsWriter(out) as w:
+                    objs = [RootObject(tf.properties)]
+                    for g in tf.groups():
+                        objs.append(g)
+                        objs.extend(g.channels())
+                    w.write_segment(objs)
+                return out.getvalue()
+            c = H.guarded(copy)
+            if c[0] != 'ok':
+                why = ('copy-raised', 'writing TdmsGroup/TdmsChannel objects raised %s: %s' % (c[1], c[2]))
+            else:
+                why = compare(c[1], exp, check_types=False, exact_raw=raw_ts)
+            oc = 'equal' if why is None else 'deviates'
+            res['outcomes'][oc] = res['outcomes'].get(oc, 0) + 1
+            res['counters']['nontrivial'] += 1
+            if why is not None and len(res['violations']) < 10:
+                kinds = sorted(set(assign[o[3]] for cl in calls for o in cl if o[0] == 'C'))
+                res['violations'].append({'case': {'copy_seq': list(seq), 'assign': list(assign), 'raw_ts': raw_ts},
+                                          'expected': 'copy through TdmsGroup/TdmsChannel objects == original', 'observed': why[1],
+                                          'signature': {'kind': 'copy-' + why[0], 'data_kinds': kinds, 'detail': None}})
+    return res
 
 
 def _worker(item):
@@ -208,7 +262,7 @@ def run(ctx):
     shapes = W.call_shapes()
     nassign = len(W.assignments())
     items = [(f, depth, ai, ctx.seed) for ai in range(nassign) for f in range(len(shapes))]
-    m = merge(ctx.map(_worker, items, chunksize=2))
+    m = merge(ctx.map(_worker, items, chunksize=2) + ctx.map(_copy_worker, [(ai, ctx.seed) for ai in range(nassign)]))
     c = m['counters']
     vac = []
     for need in ('equal', 'rejected', 'skipped'):
@@ -231,6 +285,13 @@ def run(ctx):
 
 def replay(case):
     shapes = W.call_shapes()
+    if 'copy_seq' in case:
+        ai = [list(a) for a in W.assignments()].index(case['assign'])
+        r = _copy_worker((ai, 0))
+        for v in r['violations']:
+            if v['case']['copy_seq'] == case['copy_seq'] and v['case']['raw_ts'] == case['raw_ts']:
+                return True, v['expected'], v['observed']
+        return False, 'copy == original', 'equal'
     calls = [shapes[i] for i in case['seq']]
     oc, why = check_program(calls, tuple(case['assign']), case['split'], case['version'], case['dest'])
     if why is None:
